@@ -37,8 +37,11 @@ ConsAtom(s, cx) ==
        [] k = 7 -> IF cx.sugar THEN IChr(c1) ELSE Chr(c1)
        [] k = 8 -> IF cx.sugar THEN Str(<<c1, c2>>, Pick(s, 4, 3) = 0) ELSE SeqE(<<Chr(c1), Chr(c2)>>)
        [] k = 9 -> IF cx.sugar
-                   THEN Cls(<<IF Pick(s, 5, 2) = 0 THEN Single(c1) ELSE Item(IF c1 <= c2 THEN c1 ELSE c2, IF c1 <= c2 THEN c2 ELSE c1),
-                              Single(a[1 + Pick(s, 6, Len(a))])>>, Pick(s, 7, 2) = 0, Pick(s, 8, 4) = 0)
+                   THEN LET ci == Pick(s, 8, 4) = 0
+                            lim(c) == IF ci /\ c >= 256 THEN 97 ELSE c      \* case-insensitive classes stay below 256 (see PegSyntax!ItemsS)
+                            d1 == lim(c1) d2 == lim(c2) d3 == lim(a[1 + Pick(s, 6, Len(a))])
+                        IN Cls(<<IF Pick(s, 5, 2) = 0 THEN Single(d1) ELSE Item(IF d1 <= d2 THEN d1 ELSE d2, IF d1 <= d2 THEN d2 ELSE d1),
+                                 Single(d3)>>, Pick(s, 7, 2) = 0, ci)
                    ELSE Rng(c1, c1)
 
 Atom(s, cx) ==
@@ -286,6 +289,60 @@ StressScenario(n) ==
    collect |-> [toks |-> FALSE, exec |-> FALSE, ast |-> FALSE, msg |-> FALSE, evs |-> FALSE],
    allu |-> FALSE, norun |-> TRUE, actstyle |-> "full", nowarn |-> n # 13]
 
+(* ---------- the "syntax" family (C10): one grammar under every documented spelling ---------- *)
+NSTYLES == 13
+SyntaxStyle(k) ==
+  CASE k = 1 -> DefaultStyle
+    [] k = 2 -> [DefaultStyle EXCEPT !.raw = FALSE, !.esc = "octal"]
+    [] k = 3 -> [DefaultStyle EXCEPT !.raw = FALSE, !.esc = "hex"]
+    [] k = 4 -> [DefaultStyle EXCEPT !.raw = FALSE, !.esc = "HEX"]
+    [] k = 5 -> [DefaultStyle EXCEPT !.paren = "min"]
+    [] k = 6 -> [DefaultStyle EXCEPT !.arrow = "←"]
+    [] k = 7 -> [DefaultStyle EXCEPT !.comment = " # a comment ' \" [ <- "]
+    [] k = 8 -> [DefaultStyle EXCEPT !.comment = " // a comment / 'x' "]
+    [] k = 9 -> [DefaultStyle EXCEPT !.trailnil = TRUE, !.paren = "min"]
+    [] k = 10 -> [DefaultStyle EXCEPT !.nl = "\r\n", !.comment = " # crlf"]
+    [] k = 11 -> [DefaultStyle EXCEPT !.nl = "\r", !.comment = " # cr only"]
+    [] k = 12 -> [DefaultStyle EXCEPT !.sp = " ", !.paren = "min"]
+    [] k = 13 -> DefaultStyle
+SyntaxImports(k) == IF k # 13 THEN <<>> ELSE <<[path |-> "strings", alias |-> ""], [path |-> "fmt", alias |-> "f"], [path |-> "net/url", alias |-> "u"], [path |-> "strconv", alias |-> "sc"]>>
+ImportText(imps, nl) ==
+  IF imps = <<>> THEN ""
+  ELSE "import " \o "\"" \o imps[1].path \o "\"" \o nl \o
+       "import (" \o nl \o " " \o imps[2].alias \o " \"" \o imps[2].path \o "\"" \o nl \o " " \o imps[3].alias \o " \"" \o imps[3].path \o "\"" \o nl \o ")" \o nl \o
+       "import " \o imps[4].alias \o " \"" \o imps[4].path \o "\"" \o nl \o nl
+SyntaxCx == [alpha |-> <<97, 98, 99, 65, 90, 48, 45, 93, 91, 39, 34, 92, 10, 9, 32, 94, 127, 200, 255, 233, 27721, 128512, 1114111>>,
+             acts |-> TRUE, caps |-> TRUE, preds |-> TRUE, sugar |-> TRUE, capnull |-> FALSE, maxrules |-> 3, self |-> 1, n |-> 1]
+SyntaxGrammar(g) == LET s == H(H(SEED, g), g \div 1499) n == 1 + Pick(s, 31, 3)
+                        rules == [i \in 1..n |-> [name |-> RuleName(i), body |-> GenE(H(s, 40 + i), 2 + Pick(s, 50 + i, 2), [SyntaxCx EXCEPT !.self = i, !.n = n])]]
+                    IN NumberActions([rules |-> rules])
+SyntaxScenario(n) ==
+  LET g == ((n - 1) \div NSTYLES) + 1 k == ((n - 1) % NSTYLES) + 1
+      G == SyntaxGrammar(g) st == SyntaxStyle(k) imps == SyntaxImports(k)
+  IN [id |-> n, family |-> "syntax", seed |-> SEED, grammar |-> G, style |-> k, imports |-> imps,
+      text |-> RenderWith(G, st, IF k = 7 THEN "# leading" \o st.nl ELSE "", ImportText(imps, st.nl))]
+
+(* ---------- interleavings of two instances (C14) ------------------------------------------ *)
+\* each instance takes five steps (Init, Buffer+Reset, Parse, Execute, observe); an order is a sequence over {1, 2}
+\* with five of each; all C(10,5) = 252 orders are behaviours of PegRuntime!Next for two instances
+RECURSIVE Merges(_, _)
+Merges(a, b) ==
+  IF a = 0 THEN {[j \in 1..b |-> 2]}
+  ELSE IF b = 0 THEN {[j \in 1..a |-> 1]}
+  ELSE {<<1>> \o m : m \in Merges(a - 1, b)} \cup {<<2>> \o m : m \in Merges(a, b - 1)}
+AllOrders == Merges(5, 5)
+OrderSeq == LET n == Cardinality(AllOrders)
+                RECURSIVE Enum(_, _)
+                Enum(S, acc) == IF S = {} THEN acc ELSE LET x == CHOOSE x \in S : TRUE IN Enum(S \ {x}, Append(acc, x))
+            IN Enum(AllOrders, <<>>)
+Inters(s, ninputs) ==
+  IF FAMILY # "inst" THEN <<>>
+  ELSE [k \in 1..10 |->
+         [a |-> 1 + Pick(s, 950 + k, ninputs), b |-> 1 + Pick(s, 970 + k, ninputs), size |-> <<0, 4, 64>>[1 + Pick(s, 990 + k, 3)],
+          order |-> IF k = 1 THEN <<1, 2, 1, 2, 1, 2, 1, 2, 1, 2>>            \* init0 init1 buffer0 buffer1 parse0 parse1 ...
+                    ELSE IF k = 2 THEN <<1, 2, 1, 1, 2, 2, 1, 1, 2, 2>>
+                    ELSE OrderSeq[1 + Pick(s, 930 + k, Len(OrderSeq))]]]
+
 (* ---------- inputs ------------------------------------------------------- *)
 RECURSIVE AllStrings(_, _)
 AllStrings(alpha, n) ==
@@ -342,7 +399,7 @@ PlanEntry(entry, memo, size, u, skipi) == [entry |-> entry, memo |-> memo, size 
 
 \* family parameters
 Fam ==
-  CASE FAMILY \in {"core", "stress"} ->   \* C01 C02 C03 C06: every core operator, sugar, predicates; tokens only
+  CASE FAMILY \in {"core", "stress", "syntax"} ->   \* C01 C02 C03 C06: every core operator, sugar, predicates; tokens only
          [cx |-> [alpha |-> ABC, acts |-> TRUE, caps |-> TRUE, preds |-> TRUE, sugar |-> TRUE, capnull |-> FALSE, maxrules |-> 4, self |-> 1, n |-> 1],
           depth |-> 3, optsets |-> Plain4, exhaust |-> 3, alphaIn |-> ABC, extraAlpha |-> <<97, 98, 99, 65, 100>>, nextra |-> 10,
           collect |-> [toks |-> TRUE, exec |-> FALSE, ast |-> FALSE, msg |-> FALSE], entries |-> TRUE, memoOff |-> TRUE, act |-> "full"]
@@ -370,6 +427,10 @@ Fam ==
          [cx |-> [alpha |-> ABC, acts |-> TRUE, caps |-> TRUE, preds |-> FALSE, sugar |-> FALSE, capnull |-> FALSE, maxrules |-> 3, self |-> 1, n |-> 1],
           depth |-> 3, optsets |-> <<"", "is", "n">>, exhaust |-> 2, alphaIn |-> ABC, extraAlpha |-> <<97, 98, 99, 100>>, nextra |-> 12,
           collect |-> [toks |-> TRUE, exec |-> TRUE, ast |-> TRUE, msg |-> TRUE], entries |-> FALSE, memoOff |-> FALSE, act |-> "text"]
+    [] FAMILY = "inst" ->   \* C14: interleaved and concurrent instances
+         [cx |-> [alpha |-> ABC, acts |-> TRUE, caps |-> TRUE, preds |-> FALSE, sugar |-> FALSE, capnull |-> TRUE, maxrules |-> 3, self |-> 1, n |-> 1],
+          depth |-> 3, optsets |-> <<"">>, exhaust |-> 2, alphaIn |-> ABC, extraAlpha |-> <<97, 98, 99, 100>>, nextra |-> 6,
+          collect |-> [toks |-> TRUE, exec |-> TRUE, ast |-> TRUE, msg |-> FALSE], entries |-> FALSE, memoOff |-> FALSE, act |-> "full"]
     [] FAMILY = "bytes" ->  \* C13: arbitrary Go strings as Buffer
          [cx |-> [alpha |-> <<97, 0, 233, 65533, 128512, 1114111>>, acts |-> FALSE, caps |-> TRUE, preds |-> FALSE, sugar |-> TRUE, capnull |-> FALSE, maxrules |-> 3, self |-> 1, n |-> 1],
           depth |-> 3, optsets |-> <<"", "is">>, exhaust |-> 0, alphaIn |-> <<97>>, extraAlpha |-> <<97>>, nextra |-> 0,
@@ -421,6 +482,8 @@ Scenario(n) ==
    inputs |-> IF FAMILY = "diag" THEN <<>> ELSE IF FAMILY = "bytes" THEN ByteInputs(H(SEED, n + 17)) ELSE Inputs(H(SEED, n + 17), G),
    plan |-> IF FAMILY = "diag" THEN <<>> ELSE Plan(G),
    hist |-> IF FAMILY = "diag" THEN <<>> ELSE Hists(H(SEED, n + 29), Len(Inputs(H(SEED, n + 17), G))),
+   inter |-> IF FAMILY = "diag" THEN <<>> ELSE Inters(H(SEED, n + 31), Len(Inputs(H(SEED, n + 17), G))),
+   conc |-> IF FAMILY = "inst" /\ "GEN_CONC" \in DOMAIN IOEnv THEN atoi(IOEnv.GEN_CONC) ELSE 0,
    collect |-> [toks |-> Fam.collect.toks, exec |-> Fam.collect.exec, ast |-> Fam.collect.ast, msg |-> Fam.collect.msg,
                 evs |-> ("GEN_EVS" \in DOMAIN IOEnv /\ IOEnv.GEN_EVS = "1")], allu |-> FAMILY = "reuse", norun |-> FAMILY = "diag", actstyle |-> Style(G).act]
 
@@ -429,6 +492,7 @@ IsWF(n) == FAMILY = "diag" \/ WFB(BodyMap(Core(Candidate(n))))
 RECURSIVE Collect(_, _)
 Collect(c, n) ==   \* scenarios of chunk c: candidates n = c, c + CHUNKS, ...
   IF n > NCAND THEN <<>>
+  ELSE IF FAMILY = "syntax" THEN <<SyntaxScenario(n)>> \o Collect(c, n + CHUNKS)
   ELSE IF FAMILY = "stress"   \* the 1000- and 3000-rule grammars only when at least 100 candidates are asked for (thorough tier)
        THEN (IF n <= StressShapes /\ (n \notin {2, 3} \/ NCAND >= 100) THEN <<StressScenario(n)>> ELSE <<>>) \o Collect(c, n + CHUNKS)
   ELSE (IF IsWF(n) THEN <<Scenario(n)>> ELSE <<>>) \o Collect(c, n + CHUNKS)
